@@ -75,15 +75,22 @@ class Result:
 # ---- spec function unfolding ---------------------------------------------------------------------------
 
 
-def _spec_apps(terms):
+_spec_apps_cache: dict = {}  # id of a top-level term -> (term kept alive, [spec applications in it])
+
+
+def _spec_apps_of(t0):
+    hit = _spec_apps_cache.get(t0.get_id())
+    if hit is not None:
+        return hit[1]
     seen = set()
     out = []
-    stack = list(terms)
+    stack = [t0]
     while stack:
         t = stack.pop()
-        if t.get_id() in seen:
+        tid = t.get_id()
+        if tid in seen:
             continue
-        seen.add(t.get_id())
+        seen.add(tid)
         if z3.is_quantifier(t):
             stack.append(t.body())
             continue
@@ -92,6 +99,22 @@ def _spec_apps(terms):
             if nm.startswith("spec_") and nm[5:] in api.SPECFNS:
                 out.append(t)
             stack.extend(t.children())
+    if len(_spec_apps_cache) > 100000:
+        _spec_apps_cache.clear()
+    _spec_apps_cache[t0.get_id()] = (t0, out)
+    return out
+
+
+def _spec_apps(terms):
+    """the applications of spec functions inside `terms`.  The hypotheses of one path are shared (as the same term objects) by
+    all of its obligations, so the walk is memoised per top-level term."""
+    seen = set()
+    out = []
+    for t0 in reversed(list(terms)):  # (the order of the former single depth-first walk: it decides the order of the axioms)
+        for a in _spec_apps_of(t0):
+            if a.get_id() not in seen:
+                seen.add(a.get_id())
+                out.append(a)
     return out
 
 
